@@ -1,12 +1,201 @@
 package main
 
+import (
+	"encoding/json"
+	"fmt"
+	"os"
+	"os/exec"
+	"path/filepath"
+	"strings"
+
+	"github.com/cloudwego/thriftgo/parser"
+
+	"verif/harness/coqfmt"
+	"verif/harness/gendrv"
+	"verif/harness/refldump"
+)
+
+// The compiled cases: the real thriftgo binary generates Go code with with_reflection for the
+// program (working directory = program root, exactly like the in-process parse, so the Filenames
+// agree); the code is compiled together with the generic driver in a scratch module of its own
+// (the reflection registry is process-global and keyed by the IDL path: one binary per program),
+// and the driver verb c15_dump reports what the generated packages registered.
 type compiler struct {
 	dir, thriftgo, repo string
 	st                  *stats
 }
 
 func newCompiler(dir, thriftgo, repo string, st *stats) *compiler {
+	os.MkdirAll(dir, 0o755)
 	return &compiler{dir: dir, thriftgo: thriftgo, repo: repo, st: st}
 }
 
-func (c *compiler) run(ctx *progCtx, key, root string) []*Case { return nil }
+type drvType struct {
+	Kind     string `json:"kind"`
+	Name     string `json:"name"`
+	HasType  bool   `json:"has_go_type"`
+	Own      bool   `json:"own_descriptor"`
+	ByGoType bool   `json:"by_go_type"`
+	Shared   bool   `json:"go_type_shared"`
+	TypeDesc bool   `json:"type_descriptor"`
+	Back     bool   `json:"go_type_back"`
+	Fields   bool   `json:"fields_ok"`
+	Note     string `json:"note,omitempty"`
+}
+
+type drvLookup struct {
+	Kind  string     `json:"kind"`
+	Name  string     `json:"name"`
+	Found *[2]string `json:"found"`
+}
+
+type drvFile struct {
+	Dump    *refldump.File `json:"dump"`
+	GoPkg   string         `json:"go_pkg"`
+	Types   []drvType      `json:"types"`
+	Lookups []drvLookup    `json:"lookups"`
+}
+
+type drvOut struct {
+	Files []drvFile `json:"files"`
+	Panic bool      `json:"panic"`
+	Msg   string    `json:"msg"`
+}
+
+func goEnv() []string {
+	return append(os.Environ(), "GOFLAGS=-mod=mod", "GOPROXY=off", "GOSUMDB=off", "GOTOOLCHAIN=local")
+}
+
+func copyTree(src, dst string) error {
+	return filepath.Walk(src, func(path string, info os.FileInfo, err error) error {
+		if err != nil {
+			return err
+		}
+		rel, _ := filepath.Rel(src, path)
+		if info.IsDir() {
+			return os.MkdirAll(filepath.Join(dst, rel), 0o755)
+		}
+		data, err := os.ReadFile(path)
+		if err != nil {
+			return err
+		}
+		return os.WriteFile(filepath.Join(dst, rel), data, 0o644)
+	})
+}
+
+func (c *compiler) run(ctx *progCtx, key, root string) []*Case {
+	c.st.Compiled["programs"]++
+	mod := filepath.Join(c.dir, key)
+	idl := filepath.Join(mod, "idl")
+	if err := copyTree(root, idl); err != nil {
+		fatal(err)
+	}
+	outDir := filepath.Join(mod, "gen", key)
+	prefix := "drv/gen/" + key
+	cmd := exec.Command(c.thriftgo, "-r", "-g", "go:with_reflection,package_prefix="+prefix, "-o", outDir, ctx.mainRel)
+	cmd.Dir = idl
+	cmd.Env = goEnv()
+	if out, err := cmd.CombinedOutput(); err != nil {
+		c.st.Compiled["rejected_by_thriftgo"]++
+		fmt.Fprintf(os.Stderr, "c15: %s: thriftgo: %v\n%s\n", ctx.name, err, tail(string(out), 600))
+		return nil
+	}
+	if _, err := os.Stat(outDir); err != nil {
+		c.st.Compiled["rejected_by_thriftgo"]++
+		return nil
+	}
+	b := gendrv.New(mod, c.thriftgo, c.repo)
+	b.Units = []*gendrv.Unit{{Key: key}}
+	if err := b.Build(); err != nil {
+		// generated code that does not compile is property C01's subject
+		c.st.Compiled["generated_code_does_not_compile"]++
+		fmt.Fprintf(os.Stderr, "c15: %s: %s\n", ctx.name, tail(err.Error(), 1500))
+		return nil
+	}
+	res, err := b.Run([]gendrv.Cmd{{Verb: "c15_dump", Args: []string{key, prefix}}})
+	if err != nil {
+		// init() of a generated package panicked (BuildFileDescriptor): an observation
+		c.st.Compiled["driver_failed"]++
+		c.st.Panics++
+		cs := &Case{Kind: "file", Via: "compiled", Program: ctx.name, File: ctx.main.Filename,
+			coq: fmt.Sprintf("FileCase 1%%N %s None None true", cb(ctx.main.Filename)), Observed: tail(err.Error(), 1500)}
+		return []*Case{cs}
+	}
+	var out drvOut
+	if err := json.Unmarshal(res[0], &out); err != nil {
+		fatal("c15: driver output:", err)
+	}
+	if out.Panic {
+		c.st.Compiled["driver_panic"]++
+		c.st.Panics++
+		cs := &Case{Kind: "file", Via: "compiled", Program: ctx.name, File: ctx.main.Filename,
+			coq: fmt.Sprintf("FileCase 1%%N %s None None true", cb(ctx.main.Filename)), Observed: out.Msg}
+		return []*Case{cs}
+	}
+	c.st.Compiled["built"]++
+	byName := map[string]*parser.Thrift{}
+	for _, t := range ctx.all {
+		byName[t.Filename] = t
+	}
+	var cases []*Case
+	seen := map[string]bool{}
+	for _, f := range out.Files {
+		t := byName[f.Dump.Filepath]
+		seen[f.Dump.Filepath] = true
+		c.st.Compiled["files"]++
+		mk := func(kind, coq string, obs interface{}) *Case {
+			cs := &Case{Kind: kind, Via: "compiled", Program: ctx.name, File: f.Dump.Filepath, coq: coq, Observed: obs}
+			if t != nil {
+				cs.DupBase = dupBasenames(t)
+			}
+			return cs
+		}
+		cases = append(cases, mk("file", fmt.Sprintf("FileCase 1%%N %s (Some %s) None true", cb(f.Dump.Filepath), f.Dump.Coq()), f.Dump))
+		var qs []string
+		for _, l := range f.Lookups {
+			var fo *found
+			if l.Found != nil {
+				fo = &found{l.Found[0], l.Found[1]}
+				c.st.LookupsFound++
+				if l.Found[0] != f.Dump.Filepath {
+					c.st.LookupsAcrossFiles++
+				}
+			}
+			c.st.Lookups++
+			qs = append(qs, fmt.Sprintf("(%s, %s, %s)", l.Kind, cb(l.Name), foundCoq(fo)))
+		}
+		if len(qs) > 0 {
+			cases = append(cases, mk("lookup", fmt.Sprintf("LookupCase %s %s", cb(f.Dump.Filepath), coqfmt.List(qs)), f.Lookups))
+		}
+		for _, ty := range f.Types {
+			c.st.Compiled["types"]++
+			if ty.Shared {
+				c.st.Compiled["typedefs_sharing_a_go_type"]++
+			}
+			// a typedef is a Go alias: two typedefs of one type are one Go type, which the
+			// registry can map to one of them only (model: go_type_bijection's premise)
+			by := ty.ByGoType || (ty.Kind == "typedef" && ty.Shared)
+			cases = append(cases, mk("typemap", fmt.Sprintf("TypeMapCase %s %s %s %s %s %s", cb(f.Dump.Filepath+":"+ty.Kind+":"+ty.Name),
+				coqfmt.Bool(ty.Own && ty.HasType), coqfmt.Bool(by), coqfmt.Bool(ty.Back), coqfmt.Bool(ty.TypeDesc), coqfmt.Bool(ty.Fields)), ty))
+		}
+	}
+	// every file of the program must have registered itself
+	for _, t := range ctx.all {
+		if !seen[t.Filename] {
+			c.st.Compiled["file_not_registered"]++
+			cases = append(cases, &Case{Kind: "file", Via: "compiled", Program: ctx.name, File: t.Filename, DupBase: dupBasenames(t),
+				coq: fmt.Sprintf("FileCase 1%%N %s None None true", cb(t.Filename)), Observed: "the generated package did not register a descriptor for this file"})
+		}
+	}
+	os.RemoveAll(mod)
+	return cases
+}
+
+func tail(s string, n int) string {
+	if len(s) > n {
+		return s[len(s)-n:]
+	}
+	return s
+}
+
+var _ = strings.TrimSpace
